@@ -134,6 +134,7 @@ def build(kind, ds, s, seed):
     if kind in ("pseudo-hard", "pseudo-soft", "pseudo-threshold", "pseudo-topk"):
         g = torch.Generator().manual_seed(5)
         table = torch.rand(n, C, generator=g)
+        table[0] = 0.0  # an all-equal row: its top softmax probability is exactly 1/C (a grid threshold for C in {2,4})
         if kind == "pseudo-hard":
             return KDPseudoLabelWrapper(ds, pseudo_labels=table.argmax(dim=1))
         if kind == "pseudo-soft":
@@ -199,7 +200,15 @@ def body_labels(cfg, s, l):
                 return fail("bulk label accessor differs from the per-sample accessor (" + cls + ")")
     if per != per2:
         return fail("labels depend on global RNG state, not only on constructor arguments and seed")
-    if kind in VECTOR_KINDS and not (kind == "smoothing" and s == 0):
+    if kind == "smoothing" and C == 1:
+        # binary labels (class shape (1,)): smoothed scalars stay on their side of 0.5, -1 stays the marker
+        for i, v in enumerate(per):
+            if labels[i] == -1:
+                if v != -1 and v != [-1.0]:
+                    return fail("unlabeled marker -1 was rewritten")
+            elif not (0 <= v <= 1 and (v > 0.5) == (labels[i] == 1) or (s == 4 and v == 0.5)):
+                return fail("smoothed binary label left [0,1] or changed side")
+    elif kind in VECTOR_KINDS and not (kind == "smoothing" and s == 0):
         for i, v in enumerate(per):
             if len(v) != C or min(v) < -1e-6 or abs(sum(v) - 1.0) > 1e-5 or v[labels[i]] < max(v) - 1e-6:
                 return fail("encoded label vector is not non-negative / does not sum to one / original class is not the argmax")
@@ -215,7 +224,7 @@ KINDS = ["class-groups", "class-groups-shuffle", "superclass", "superclass-split
          "random-class", "random-class-perm", "random-class-gather", "semi", "smoothing", "one-hot",
          "pseudo-hard", "pseudo-soft", "pseudo-threshold", "pseudo-topk"]
 SCALAR = {"swap": 5, "overwrite": 2, "overwrite-tensor": 2, "allgather": 6, "random-class-gather": 4, "semi": 5, "smoothing": 5, "pseudo-threshold": 5}
-LAYOUTS = [((0, 1, 0), 2), ((0, 1, 2, 3, 1), 4), ((3, 3, 0, 1), 4), ((1, 0, 1, 1, 0), 2)]
+LAYOUTS = [((0, 1, 0), 2), ((0, 1, 2, 3, 1), 4), ((3, 3, 0, 1), 4), ((0, 2, 1, 2), 3), ((1, -1, 0), 1), ((1, 0, 1, 1, 0), 2)]
 
 
 def conditions(tier, rng):
@@ -223,16 +232,19 @@ def conditions(tier, rng):
     q = tier == "quick"
     to = 600 if q else 1800
     conds = []
-    layouts = LAYOUTS if not q else LAYOUTS[:3]
+    layouts = LAYOUTS if not q else LAYOUTS[:5]
     for kind in KINDS:
         for prefix, C in layouts:
-            if kind.startswith("class-groups") or kind.startswith("superclass"):
-                if C % 2 != 0:
-                    continue
+            if kind.startswith("class-groups") and C % 2 != 0:
+                continue  # domain: group sizes dividing the class count (class-group wrapper only)
+            if C == 1 and kind != "smoothing":
+                continue
             for seed in ((0, 3) if kind in ("class-groups-shuffle", "superclass", "superclass-splits", "swap", "random-class", "random-class-perm", "semi", "pseudo-topk") else (0,)):
                 smax = SCALAR.get(kind, 1)
+                if C == 3 and not (kind.startswith("superclass") or kind in ("swap", "allgather", "pseudo-threshold", "one-hot")):
+                    continue  # the 3-class layout is there for class counts that the group size does not divide
                 conds.append(Cond(
                     name=f"labels[{kind};{''.join(map(str, prefix))}?;C={C};seed={seed}]", harness=H, body="body_labels", cfg=(kind, prefix, C, seed),
-                    params=[("s", "int"), ("l", "int")], pre=[f"0 <= s < {smax}", f"0 <= l < {C}"], timeout=to, group=f"labels-{kind}", cost=smax * C,
+                    params=[("s", "int"), ("l", "int")], pre=[f"0 <= s < {smax}", f"0 <= l < {max(C, 2)}"], timeout=to, group=f"labels-{kind}", cost=smax * C,
                     bounds="layout prefix, class count and seed enumerated; one scalar argument (grid) and the last label symbolic, realised at the numpy/torch boundary"))
     return conds
